@@ -389,13 +389,13 @@ def parseRoot (text : List Nat) : DocResult × Path :=
   else (finish buf len errInvalidChar pos (.num (.uint 0)), .err)
 
 /-- the `arr_val` / `arr_cont` loop of `parseImpl` for an array whose elements are numbers.
-    Note `sonic_check_err()` after `parseNumber`: it jumps to `err_invalid_char`, which overwrites the code. -/
+    `sonic_check_err()` after `parseNumber` returns with the error code `parseNumber` has set. -/
 def arrLoop (buf : List Nat) (len : Nat) : Nat → Nat → Nat → List JNum → DocResult
   | 0, _, _, _ => .unsupported
   | fuel + 1, c, pos, acc =>
     if isNumStart c then
       match parseNumber buf len (pos - 1) with
-      | .err _ p => finish buf len errInvalidChar p (.nums [])
+      | .err code p => finish buf len code p (.nums [])
       | .ok v next _ =>
         let acc := v :: acc
         let (c, pos) := skipSpace buf next
